@@ -148,6 +148,11 @@ func init() {
 					return []string{hx(lm), hx(nt)}, []string{hx(lm), hx(nt), hx(msg)}
 				}},
 			{Name: "c08.chal", Impl: func(a []string) string {
+				if c13Used(a) { // what an earlier parse of the same bytes handed out is scribbled on first
+					if c0, err := ntlm.ParseChallengeMessage(unhx(a[0])); err == nil {
+						scribble(c0)
+					}
+				}
 				c, err := ntlm.ParseChallengeMessage(unhx(a[0]))
 				if err != nil {
 					return "err"
@@ -156,6 +161,11 @@ func init() {
 				return fmt.Sprintf("ok %d %s %s %s %s %s", c.NegotiateFlags, hx(c.ServerChallenge[:]), hx(c.Reserved[:]), hx(c.TargetName), hx(c.TargetInfo), hx(v))
 			}},
 			{Name: "c08.ti", Impl: func(a []string) string {
+				if c13Used(a) {
+					if m0, err := ntlm.ParseTargetInfo(unhx(a[0])); err == nil {
+						scribble(m0)
+					}
+				}
 				m, err := ntlm.ParseTargetInfo(unhx(a[0]))
 				if err != nil {
 					return "err"
@@ -181,6 +191,11 @@ func init() {
 			}},
 			{Name: "c08.extract", Impl: func(a []string) string { return outBytes(spnego.ExtractNTLMToken(unhx(a[0]))) }},
 			{Name: "c08.parseresp", Impl: func(a []string) string {
+				if c13Used(a) {
+					if r0, err := spnego.ParseNegTokenResp(unhx(a[0])); err == nil {
+						scribble(r0)
+					}
+				}
 				r, err := spnego.ParseNegTokenResp(unhx(a[0]))
 				if err != nil {
 					return "err"
